@@ -258,20 +258,34 @@ static void build(const std::vector<Item> &items, Built &b, bool mirror)
     }
 }
 
+// coarse input class for crash / hang keys: conversion (+ length), value class, whether a precision bounds it.
+// For several directives the class names the most hazardous one (an unterminated %s, else the first) + "+more".
 static std::string cls_of(const std::vector<Item> &items)
 {
-    std::string c;
+    const Dir *pick = nullptr;
     int n = 0;
     for (const Item &it : items)
         if (it.is_dir && it.d.conv != '%')
         {
-            if (n == 0)
-                c = signature(it.d, false, true);
             n++;
+            if (!pick || (it.d.conv == 's' && it.d.unterminated && !(pick->conv == 's' && pick->unterminated)))
+                pick = &it.d;
         }
-    if (n == 0)
-        c = "literal";
-    else if (n > 1)
+    if (!pick)
+        return "literal";
+    const Dir &d = *pick;
+    std::string c = "%";
+    if (d.wk == W_LIT)
+        c += 'W';
+    if (d.pk == P_LIT || d.pk == P_DOT)
+        c += ".P";
+    else if (d.pk == P_STAR)
+        c += ".*";
+    c += LEN[d.len];
+    c += d.conv;
+    c += ':';
+    c += val_class(d);
+    if (n > 1)
         c += "+more";
     return c;
 }
